@@ -93,6 +93,9 @@ type Features struct {
 	NoBackslashQuote bool
 	// ReturningAlias: RETURNING expr AS name
 	ReturningAlias bool
+	// IntersectPrecedence: INTERSECT may follow UNION / EXCEPT in a set-operation chain (the model
+	// tree gives it the higher precedence the standard prescribes)
+	IntersectPrecedence bool
 	// Flat: no nested query anywhere and no statement-starting keyword after the
 	// first token (SELECT/INSERT ... VALUES/DELETE only): the sub-grammar C12 quantifies over
 	Flat bool
